@@ -13,7 +13,8 @@
 (*     rather than delivered short.                                                                    *)
 (* The extent is recomputed here from the (corrupted) image itself.  Where a VOL image records two     *)
 (* lengths that a fault has made different (index entry size, block header length) either is           *)
-(* "the extent the archive records".                                                                   *)
+(* "the extent the archive records" - for a member stored uncompressed.  The index entry of a          *)
+(* compressed member holds its unpacked size, so only the block header describes its stored bytes.     *)
 (* Events: {"e":"Reset","kind":"vol"|"clm","image":[..]}                                               *)
 (*         {"e":"Call","obj":"long"|"fresh","call":..,"i":..,"key":..,"ok":bool,"val":..}              *)
 (***************************************************************************************************)
@@ -33,22 +34,22 @@ Outside == [off |-> 70000, len |-> 0]
 SmallExtent(offW, lenHi, lenLo, delta) == IF offW.hi # 0 \/ lenHi # 0 THEN Outside ELSE [off |-> offW.lo + delta, len |-> lenLo]
 \* ---- VOL: index located through the padded name-table length; block = 8-byte header + payload --------------------
 VolIndexAt == LET vs == W32(20) IN IF vs.in /\ (vs.hi % 32768) = 0 THEN 24 + vs.lo + 8 ELSE 0     \* 0: cannot be located
+\* the extracted file is the stored block itself: a VOL member with compression code 0x100 in its index entry (a CLM member is extracted
+\* as a WAV file around its data, an LZH member decompressed: for those only the refusal rule applies here)
+StoredPlain(i) == kind = "vol" /\ (VolIndexAt # 0 /\ LET o == VolIndexAt + 14 * i + 12 IN o + 2 <= FLen /\ image[o + 1] = 0 /\ image[o + 2] = 1)
 VolExtents(i) ==
   IF VolIndexAt = 0 THEN {}
   ELSE LET blk == W32(VolIndexAt + 14 * i + 4)  esz == W32(VolIndexAt + 14 * i + 8) IN
        IF ~blk.in \/ blk.hi # 0 THEN {Outside}
        ELSE LET hdr == W32(blk.lo + 4) IN
             (IF hdr.in THEN { SmallExtent(blk, hdr.hi % 32768, hdr.lo, 8) } ELSE {Outside})
-            \cup (IF esz.in THEN { SmallExtent(blk, esz.hi, esz.lo, 8) } ELSE {})
+            \cup (IF esz.in /\ StoredPlain(i) THEN { SmallExtent(blk, esz.hi, esz.lo, 8) } ELSE {})      \* (a compressed member's index entry holds the UNPACKED size: not an extent)
 \* ---- CLM: 60-byte header, 16-byte entries (8 name bytes, offset, length) --------------------------------------------------
 ClmExtents(i) == LET off == W32(60 + 16 * i + 8)  len == W32(60 + 16 * i + 12) IN
                  IF ~off.in \/ ~len.in THEN {} ELSE { SmallExtent(off, len.hi, len.lo, 0) }
 Extents(i) == IF kind = "vol" THEN VolExtents(i) ELSE ClmExtents(i)
 InFile(x) == x.off + x.len <= FLen
 Slice(x) == SubSeq(image, x.off + 1, x.off + x.len)
-\* the extracted file is the stored block itself: a VOL member with compression code 0x100 in its index entry (a CLM member is extracted
-\* as a WAV file around its data, an LZH member decompressed: for those only the refusal rule applies here)
-StoredPlain(i) == kind = "vol" /\ (VolIndexAt # 0 /\ LET o == VolIndexAt + 14 * i + 12 IN o + 2 <= FLen /\ image[o + 1] = 0 /\ image[o + 2] = 1)
 Reset == Ev.e = "Reset" /\ kind' = Ev.kind /\ image' = Ev.image /\ resp' = <<>> /\ count' = 0
 Allowed ==
   CASE Ev.call = "GetCount" -> TRUE
